@@ -17,6 +17,13 @@ static int N, S, T;
 static m_thpool_t *pool;
 static pthread_barrier_t bar;
 
+static int nested;                 /* this round: some tasks submit a follow-up task to their own pool (possibly while it is being freed) */
+static void *task(void *arg);
+static void follow_up(int id) {
+    int fid = MAXTASK / 2 + id;                                        /* follow-up ids live in the upper half */
+    m_thpool_t *p = pool;                                              /* (NULL once free returned: then nobody may be here any more) */
+    if (p) accepted[fid] = m_thpool_add(p, task, (void *)(long)fid) == 0;
+}
 static void *task(void *arg) {
     int id = (int)(long)arg;
     if (atomic_load(&freed)) atomic_fetch_add(&after_free, 1);
@@ -25,6 +32,7 @@ static void *task(void *arg) {
     while (r > m && !atomic_compare_exchange_weak(&max_running, &m, r));
     if (id >= 0 && id < MAXTASK) atomic_fetch_add(&ran[id], 1);
     for (volatile int k = 0; k < (id % 7) * 50; k++);
+    if (nested && id < MAXTASK / 2 && id % 3 == 0) follow_up(id);
     atomic_fetch_sub(&running, 1);
     if (atomic_load(&freed)) atomic_fetch_add(&after_free, 1);
     return NULL;
@@ -43,7 +51,8 @@ int main(int argc, char **argv) {
         for (int fl = 0; fl < 8 && !bad; fl++) {
             int lazy = fl & 1, det = (fl >> 1) & 1, waitall = (fl >> 2) & 1;
             N = 1 + rand() % 4; S = 1 + rand() % 4; T = 1 + rand() % 40;
-            for (int i = 0; i < S * T; i++) { atomic_store(&ran[i], 0); accepted[i] = 0; }
+            nested = rand() % 2;
+            for (int i = 0; i < MAXTASK; i++) { atomic_store(&ran[i], 0); accepted[i] = 0; }
             atomic_store(&running, 0); atomic_store(&max_running, 0); atomic_store(&after_free, 0); atomic_store(&freed, 0);
             pool = m_thpool_new((uint8_t)N, (lazy ? M_THPOOL_LAZY : 0) | (det ? M_THPOOL_DETACHED : 0));
             if (!pool) { printf("STRESS-FAIL new returned NULL\n"); return 1; }
@@ -56,7 +65,8 @@ int main(int argc, char **argv) {
             m_thpool_free(&pool, waitall);
             atomic_store(&freed, 1);
             usleep(200);                                   /* anything still running now runs after free returned */
-            for (int i = 0; i < S * T; i++) {
+            for (int i = 0; i < MAXTASK; i++) {
+                if (i >= S * T && i < MAXTASK / 2) continue;
                 int n = atomic_load(&ran[i]);
                 if (n > 1) { printf("STRESS-FAIL flavour l%dd%dw%d N=%d S=%d T=%d: task %d ran %d times\n", lazy, det, waitall, N, S, T, i, n); bad = 1; }
                 if (!accepted[i] && n) { printf("STRESS-FAIL flavour l%dd%dw%d: refused task %d ran\n", lazy, det, waitall, i); bad = 1; }
